@@ -106,7 +106,7 @@ class Report:
             path, lemma, ci = g["task"]
             key = "gen::%s[%s]" % (lemma, ci)
             changed = self._changed_functions(base, lemma)
-            found = replay.bounded_lemma_search(path, lemma, ci, self.tier, self.seed)
+            found = replay.bounded_lemma_search(path, lemma, ci, self.tier, self.seed) if replay.can_replay({"inputs": {}, "file": path, "lemma": lemma}) else None
             if found is not None:
                 self._failure("%s::%s" % (lemma, found["check"]), found["inputs"], found, known, match_known)
             elif changed and any(k.startswith(lemma) for k in base.get("groups", {})):
@@ -117,14 +117,20 @@ class Report:
                 self.fault("cannot generate obligations for %s: %s\n%s" % (key, g["error"], g.get("trace", "")))
         # proof obligations
         seen_groups = set()
+        reproduced_groups = set()
+        replay_tries = {}
         for d, r in zip(self.obs, self.results):
             if r.status == "unsat":
                 continue
             name = d["name"]
+            if name in reproduced_groups:
+                continue
             solver_out = {"status": r.status, "log": r.log, "goal": d["goal"]}
-            if r.status == "sat" and r.model is not None:
+            if r.status == "sat" and r.model is not None and replay.can_replay(d) and replay_tries.get(name, 0) < 3:
+                replay_tries[name] = replay_tries.get(name, 0) + 1
                 rp = replay.replay_model(d, r.model)
                 if rp.get("reproduced"):
+                    reproduced_groups.add(name)
                     self._failure(name, rp.get("inputs"), rp, known, match_known, solver_out=solver_out)
                     continue
                 solver_out["replay"] = rp
@@ -133,7 +139,9 @@ class Report:
                 continue
             seen_groups.add(name)
             ci = self._cfg_index(d)
-            found = replay.bounded_lemma_search(d["file"], d["lemma"], ci, self.tier, self.seed, want_check=name.split("::", 1)[1])
+            found = None
+            if replay.can_replay(d):
+                found = replay.bounded_lemma_search(d["file"], d["lemma"], ci, self.tier, self.seed, want_check=name.split("::", 1)[1])
             if found is not None:
                 self._failure(name, found["inputs"], found, known, match_known, solver_out=solver_out)
                 continue
